@@ -20,10 +20,11 @@ def Selects (rules : List CoreRule) (ctxAt : Nat → Regex) (iter : List Nat) (n
   ∀ n' a' e', LangCand rules ctxAt iter n' a' e' → candLe n' e' n viaEoi
 
 /-- the lexer is at the start of a lexeme with rule set `name` active: nothing saved, and
-`__state = __initial_state` is the number the generated `switch` stores for `name` -/
-def ActiveIn (items : LexerDef) (c : Compiled) (st : LState σ) (name : String) : Prop :=
+`__state = __initial_state` is the number the generated `switch` stores for `name` (`inl`: the
+states the generator inlined — `cfg.inl` of the configuration that runs) -/
+def ActiveIn (items : LexerDef) (c : Compiled) (inl : List Nat) (st : LState σ) (name : String) : Prop :=
   st.last = none ∧ st.state = st.initial ∧
-  ∃ e, IsEntryOf items c name e ∧ st.state = renumber (inlinedStates c.dfa) e
+  ∃ e, IsEntryOf items c name e ∧ st.state = renumber inl e
 
 /-- the state handed to the semantic action of a match of `n` characters: the iterator and the match end
 advanced by exactly `n` characters (whatever was read beyond is rewound), `done` set iff the match went
@@ -50,14 +51,14 @@ inductive RefNext (items : LexerDef) (c : Compiled) (ctxAt : Nat → Regex) (cfg
   | ret (st : LState σ) (name : String) (rs : List RuleOrBinding) (b : Bindings) (k : Nat) (rules : List CoreRule)
       (n a : Nat) (viaEoi : Bool) (s' : Nat) (item : Option (Item τ ε)) (st' : LState σ) :
       st.done = false → (name, rs, b, k) ∈ allRuleSets items → coreRules rs b k = some rules →
-      ActiveIn items c st name → Selects rules ctxAt st.iter n a viaEoi →
+      ActiveIn items c cfg.inl st name → Selects rules ctxAt st.iter n a viaEoi →
       callAction cfg a (matchState cfg.width st n viaEoi s') = .ret item st' →
       RefNext items c ctxAt cfg st (item, st')
   /-- the maximal match's action runs and continues: the next lexeme is selected from the new state -/
   | cont (st : LState σ) (name : String) (rs : List RuleOrBinding) (b : Bindings) (k : Nat) (rules : List CoreRule)
       (n a : Nat) (viaEoi : Bool) (s' : Nat) (st2 : LState σ) (r : Option (Item τ ε) × LState σ) :
       st.done = false → (name, rs, b, k) ∈ allRuleSets items → coreRules rs b k = some rules →
-      ActiveIn items c st name → Selects rules ctxAt st.iter n a viaEoi →
+      ActiveIn items c cfg.inl st name → Selects rules ctxAt st.iter n a viaEoi →
       callAction cfg a (matchState cfg.width st n viaEoi s') = .cont st2 →
       RefNext items c ctxAt cfg st2 r →
       RefNext items c ctxAt cfg st r
@@ -65,14 +66,14 @@ inductive RefNext (items : LexerDef) (c : Compiled) (ctxAt : Nat → Regex) (cfg
   | eof (st : LState σ) (name : String) (rs : List RuleOrBinding) (b : Bindings) (k : Nat) (rules : List CoreRule)
       (st' : LState σ) :
       st.done = false → (name, rs, b, k) ∈ allRuleSets items → coreRules rs b k = some rules →
-      ActiveIn items c st name → (∀ n a e, ¬ LangCand rules ctxAt st.iter n a e) →
+      ActiveIn items c cfg.inl st name → (∀ n a e, ¬ LangCand rules ctxAt st.iter n a e) →
       st.iter = [] → st.state = 0 → st'.done = true → st'.user = st.user →
       RefNext items c ctxAt cfg st (none, st')
   /-- no rule matches: `InvalidToken` located at the start of the current match, then resume in `Init` -/
   | invalid (st : LState σ) (name : String) (rs : List RuleOrBinding) (b : Bindings) (k : Nat) (rules : List CoreRule)
       (st' : LState σ) :
       st.done = false → (name, rs, b, k) ∈ allRuleSets items → coreRules rs b k = some rules →
-      ActiveIn items c st name → (∀ n a e, ¬ LangCand rules ctxAt st.iter n a e) →
+      ActiveIn items c cfg.inl st name → (∀ n a e, ¬ LangCand rules ctxAt st.iter n a e) →
       ¬ (st.iter = [] ∧ st.state = 0) → ErrResume st st' →
       RefNext items c ctxAt cfg st (some (.invalid st.curStart), st')
 
